@@ -46,6 +46,7 @@ def cases(tier):
     for pd, fd in itertools.product(("bf16", "f32", "f64"), repeat=2):
         cs.append(f"qr/dtype/{pd}-{fd}")
     cs.append("contract/check_diagonal")
+    cs.append("contract/qr-loop")  # the QR method's loop contract (C12), re-discharged: the stored basis is the orthogonal-iteration update for ANY budget / tolerance
     return cs
 
 
@@ -108,6 +109,9 @@ def run_case(case, tier, seed):
     if case == "contract/check_diagonal":
         from checks import mf
         return mf.run_checkdiag(case)
+    if case == "contract/qr-loop":
+        from checks import mf
+        return mf.run_qr_loop(case)
     if case.startswith("plist/"):
         return plist.run_list_case(case, tier, PROP)
     return _qr_dtype_case(case)
@@ -134,6 +138,14 @@ def replay(r):
 
 def replay_file(doc):
     rp = doc.get("replay_input") or {}
+    if rp.get("kind") == "qr_frame":
+        from checks import mf as _mf
+        bad = _mf.native_qr_frame()
+        return bool(bad), bad or "the QR method does not write its inputs"
+    if rp.get("kind") == "eigvec":
+        from checks import mf
+        bad = mf.native_qr_rule()
+        return bool(bad), bad or "QR method follows the documented relative-change stopping rule"
     if rp.get("kind") == "checkdiag":
         from checks import mf
         bad = mf.native_checkdiag()
